@@ -268,6 +268,33 @@ def check_size(chk, prog, eff, cache, H=None):
             wd = ("cbor_float_get_width", sorted(fw_))
         if set(ty) <= {T["CBOR_TYPE_UINT"], T["CBOR_TYPE_NEGINT"]} or ty == [T["CBOR_TYPE_FLOAT_CTRL"]]:
             if wd is None:
+                # several widths share this path and the answer is computed from the width (a table indexed by the enumerator, an
+                # arithmetic formula): evaluated for each width the path admits
+                is_int_ = ty != [T["CBOR_TYPE_FLOAT_CTRL"]]
+                ws_ = sorted(iw_ if is_int_ else fw_)
+                wname = "cbor_int_get_width" if is_int_ else "cbor_float_get_width"
+                if len(ws_) > 1 and not is_const(pa.ret):
+                    import termeval as _te
+                    wterms = [e.res for e in pa.events if e.kind == "call" and e.callee == wname]
+                    tabs_ = {}
+                    for g_ in prog.globals.values():
+                        iv_ = g_.get("init_val")
+                        if g_.get("constant") and iv_ is not None and hasattr(iv_, "elems") and iv_.elems and all(hasattr(x_, "v") for x_ in iv_.elems):
+                            tabs_[g_["name"]] = [x_.v for x_ in iv_.elems]
+                    for w in ws_:
+                        if (is_int_ and w == IW["CBOR_INT_8"]) or (not is_int_ and w == FW["CBOR_FLOAT_0"]):
+                            continue
+                        try:
+                            got_ = _te.evaluate(pa.ret, {t_: w for t_ in wterms}, tabs_)
+                        except Exception:
+                            got_ = None
+                        if got_ is None:
+                            continue
+                        nbytes = {1: 2, 2: 4, 3: 8}[w]
+                        nleaf += 1
+                        chk.ob("C07.size-leaf", "%s width %d -> %d bytes" % ("int" if is_int_ else "float", w, 1 + nbytes), got_ == 1 + nbytes, where,
+                               fn=f.name, key="leaf:%s:%d" % (is_int_, w),
+                               detail="" if got_ == 1 + nbytes else "size reports %r, the encoder writes %d" % (got_, 1 + nbytes))
                 continue   # default arms (unreachable widths)
             w = wd[1][0]
             is_int = wd[0] == "cbor_int_get_width"
